@@ -21,7 +21,7 @@ import (
 
 // C08 — Protocol handlers terminate without panic on arbitrary packets.
 
-const c08Rule = "protocol-aware frames (ARP, DHCPv4 all message types both ports, ICMPv4 incl. embedded datagrams, ICMPv6/NDP with option lists, DNS, mDNS/LLMNR with every record type in every section, NBNS, SSDP, 802.3 LLC/SNAP/STP/IPX) built by ref, closed under truncation at every offset, count/length/pointer corruption and byte mutation, dispatched by PayloadID exactly as the examples do (Parse, Process*, Notify); plus raw bytes handed to the exported payload decoders behind their IsValid. oracle = returns within the watchdog budget and does not panic (a panic in a goroutine the handler started takes the shard down and is reported as process-crash); what RA.Options returns without an error must be carried by an intact option of the message. non-trivial = Parse accepted the frame and a handler or decoder was entered; distinct by hash of the bytes"
+const c08Rule = "protocol-aware frames (ARP, DHCPv4 all message types both ports, ICMPv4 incl. embedded datagrams, ICMPv6/NDP with option lists, DNS, mDNS/LLMNR with every record type in every section, NBNS, SSDP, 802.3 LLC/SNAP/STP/IPX) built by ref, closed under truncation at every offset, count/length/pointer corruption and byte mutation, dispatched by PayloadID exactly as the examples do (Parse, Process*, Notify) in a full-size read buffer and - one in four, and every truncation, unless the bytes could reach the DHCP server, which replies inside the buffer - as a slice without spare capacity; plus raw bytes handed to the exported payload decoders behind their IsValid. oracle = returns within the watchdog budget and does not panic (a panic in a goroutine the handler started takes the shard down and is reported as process-crash); what RA.Options returns without an error must be carried by an intact option of the message. non-trivial = Parse accepted the frame and a handler or decoder was entered; distinct by hash of the bytes"
 
 type c08Env struct {
 	s     *packet.Session
@@ -147,8 +147,9 @@ type c08Case struct {
 	Data  drv.Hex `json:"data"`
 	Times int     `json:"times,omitempty"` // deliver this many times (the ICMPv6 handler processes one RA in four)
 	Dec   string  `json:"decoder,omitempty"`
-	Log   int     `json:"log,omitempty"`  // level of the package loggers while the frame is processed: 0 info, 1 error, 2 debug
-	Aged  bool    `json:"aged,omitempty"` // the frame comes twice, five minutes apart (the handler's mDNS response cache has expired: dns_naming.VerifExpireMDNSCache)
+	Log   int     `json:"log,omitempty"`   // level of the package loggers while the frame is processed: 0 info, 1 error, 2 debug
+	Tight bool    `json:"tight,omitempty"` // the frame is a slice with no spare capacity (an application that copies frames out of the read buffer before handing them on); never for frames that could reach the DHCP server, which replies inside the buffer
+	Aged  bool    `json:"aged,omitempty"`  // the frame comes twice, five minutes apart (the handler's mDNS response cache has expired: dns_naming.VerifExpireMDNSCache)
 }
 
 func c08Run(tb drv.TB, rec *drv.Rec, sub string, c c08Case) {
@@ -168,13 +169,19 @@ func c08Run(tb drv.TB, rec *drv.Rec, sub string, c c08Case) {
 	if c.Aged && times < 2 {
 		times = 2
 	}
+	tight := c.Tight && !c08MayBeDHCP(c.Data)
 	for k := 0; k < times; k++ {
 		n := copy(buf, c.Data)
+		in := buf[:n]
+		if tight {
+			in = append(make([]byte, 0, n), c.Data...)
+			rec.Class("tight buffer")
+		}
 		var herr error
 		if c.Aged && k > 0 {
 			e.dns.VerifExpireMDNSCache()
 		}
-		if p, sig, st := drv.Catch(func() { entered, herr = e.dispatch(buf[:n]) }); p != nil {
+		if p, sig, st := drv.Catch(func() { entered, herr = e.dispatch(in) }); p != nil {
 			c08E = nil // a panic may have left a handler lock held: never reuse this environment
 			go e.close()
 			rec.Violation(tb, sub, sig, c, "handler panicked on a %d byte frame: %v\n%s", len(c.Data), p, st)
@@ -187,6 +194,16 @@ func c08Run(tb drv.TB, rec *drv.Rec, sub string, c c08Case) {
 		rec.Class("entered " + entered)
 		rec.NonTrivial(drv.HashBytes(c.Data), func() interface{} { return c08Case{Data: append([]byte(nil), c.Data...), Times: c.Times} })
 	}
+}
+
+// c08MayBeDHCP: the frame holds 00 43 or 00 44 somewhere (a UDP port 67 / 68 wherever the headers put it).
+func c08MayBeDHCP(b []byte) bool {
+	for i := 0; i+1 < len(b); i++ {
+		if b[i] == 0 && (b[i+1] == 0x43 || b[i+1] == 0x44) {
+			return true
+		}
+	}
+	return false
 }
 
 // c08Frame draws a protocol frame. It returns the bytes and how often to deliver them.
@@ -402,7 +419,7 @@ func TestC08(t *testing.T) {
 			b, mut = gen.Mutate(t, b)
 		}
 		rec.Class(fmt.Sprintf("gen %s mutated=%v", class, mut != ""))
-		return c08Case{Data: b, Times: times, Log: rapid.SampledFrom([]int{0, 0, 0, 1, 2, 2}).Draw(t, "log"), Aged: rapid.IntRange(0, 5).Draw(t, "aged") == 0}
+		return c08Case{Data: b, Times: times, Log: rapid.SampledFrom([]int{0, 0, 0, 1, 2, 2}).Draw(t, "log"), Aged: rapid.IntRange(0, 5).Draw(t, "aged") == 0, Tight: rapid.IntRange(0, 3).Draw(t, "tight") == 0}
 	}, func(tb drv.TB, c c08Case) { c08Run(tb, rec, "frames", c) })
 
 	// truncation at every offset of a drawn message
@@ -416,6 +433,9 @@ func TestC08(t *testing.T) {
 		}
 		for n := len(c.Data); n >= start && n >= 0; n-- {
 			c08Run(tb, rec, "truncations", c08Case{Data: c.Data[:n], Times: c.Times})
+			if !c08MayBeDHCP(c.Data[:n]) {
+				c08Run(tb, rec, "truncations", c08Case{Data: c.Data[:n], Times: c.Times, Tight: true})
+			}
 		}
 	})
 
